@@ -29,7 +29,8 @@ THEOREMS = ['link_refinement', 'link_refinement_framing_laws', 'link_refinement_
             'timedOut_from_expire_step', 'C11_call_selected_interface_agrees', 'C11_call_through_agreeing_proxy',
             'C11_call_through_introspected_proxy', 'bytes_run_simulated', 'C11_bytes_any_delivery_order_partial',
             'bytes_nothing_stuck_in_a_receiver', 'bytes_quiescence_reachable', 'bytes_quiescence_reachable_in_class',
-            'C11_bytes_completion_always_reachable_partial', 'getRemoteObject_introspects_iff_unknown_name',
+            'C11_bytes_completion_always_reachable_partial', 'bytes_run_from_handshake_reduces',
+            'C11_bytes_from_handshake_partial', 'getRemoteObject_introspects_iff_unknown_name',
             'getRemoteObject_built_lists_every_requested', 'getRemoteObject_built_agrees',
             'C11_returns_what_it_returned', 'prefix_model_violates']
 TRUSTED_BASE = [
@@ -750,7 +751,9 @@ class Run:
     """One execution of a scenario on the real code under one schedule."""
 
     def __init__(self, scn, chooser, message_granular, catch_all=False, advance=False, bytes_mode=False,
-                 drain_tail=None):
+                 drain_tail=None, hs_mode=False):
+        self.hs_mode = hs_mode            # byte mode: the model starts BEFORE the end of the handshake (`BNet.initH`)
+        self.hs_pending = {}              # (client, direction) -> handshake bytes still in front of the model's wire
         self.bytes_mode = bytes_mode      # model lines drive the BYTE-level model (`bstep`): one line per read
         self.drain_tail = drain_tail      # probability per step of finishing by the canonical draining schedule
         self.cum = {}                     # per client: every inv(...) / done(...) effect token so far (byte mode)
@@ -929,10 +932,20 @@ class Run:
         net.pump()
         del net.log[:]
         # World of the model, taken from the real objects
-        self.lines.append('%s %d %s' % ('breset' if self.bytes_mode else 'reset', n,
+        self.lines.append('%s %d %s' % (('hreset' if self.hs_mode else 'breset') if self.bytes_mode else 'reset', n,
                                         ' '.join('%d' % net.next_serial(i) for i in range(n))))
         self.expect.append('ok')
         del net.sent_raw[:]
+        if self.bytes_mode and self.hs_mode:
+            # the authentication lines the real peers wrote (the bus's receivers have had their NUL byte): in front of
+            # the model's wires; the model's first read on each link takes them together with the real read's bytes
+            for c in range(n):
+                up = bytes(net.handshake.get('cli:%d' % c, b''))[1:]
+                down = bytes(net.handshake.get('bus:%d' % c, b''))
+                for d_, bs in (('up', up), ('down', down)):
+                    self.lines.append('hs %s %d %s' % (d_, c, bs.hex() or '-'))
+                    self.expect.append('ok')
+                    self.hs_pending[(c, 'c2b' if d_ == 'up' else 'b2c')] = len(bs)
         for ei, spec in enumerate(scn['exports']):
             j = spec['client']
             obj = self.exp_objs[ei]
@@ -1635,6 +1648,8 @@ class Run:
                         if w_[0] in ('call', 'resolve', 'expire'):
                             self.accumulate(int(w_[1]), e_)
                 self.codec_lines(mark)
+        if self.bytes_mode:
+            self.open_links()
         self.lines.append('quiescent')
         self.expect.append('yes')
         if self.bytes_mode:
@@ -1655,6 +1670,14 @@ class Run:
         del self.net.sent_raw[:]
         self.lines[mark:mark] = new
         self.expect[mark:mark] = ['ok'] * len(new)
+
+    def open_links(self):
+        """Links nobody has read yet still carry their handshake in the model: one read of exactly these bytes each."""
+        for (c, direction), n_ in sorted(self.hs_pending.items()):
+            pipe = self.net.links[c].c2b if direction == 'c2b' else self.net.links[c].b2c
+            self.lines.append('%s %d %d' % ('readBus' if direction == 'c2b' else 'readClient', c, n_))
+            self.expect.append('read 0 wire=%d' % len(pipe.buf))
+        self.hs_pending.clear()
 
     def accumulate(self, c, expected):
         d = self.cum.setdefault(c, {'inv': [], 'done': []})
@@ -1687,6 +1710,7 @@ class Run:
         self.expect += head_e
         pipe = self.net.links[i].c2b if direction == 'c2b' else self.net.links[i].b2c
         left = len(pipe.buf)
+        nb += self.hs_pending.pop((i, direction), 0)      # the model's first read on this link: handshake and bytes in one
         if direction == 'c2b':
             self.lines.append('readBus %d %d' % (i, nb))
             fwd = [o for o in outs if o.startswith('fwd ')]
@@ -1721,6 +1745,7 @@ class Run:
         scenarios whose exported methods all return Deferreds: `drain` lets every invocation return one.)  The model
         gets one `drain` line; what it did is compared step by step (`B<c>:<k>`, …) and through the final `logs`."""
         net = self.net
+        self.open_links()
         steps = []
         fire = []
         guard = 0
@@ -1970,7 +1995,8 @@ def exhaustive_runs(scn, limit, deadline=None):
     return runs, complete
 
 
-def random_run(scn, seed, granular=False, catch_all=False, advance=0, bytes_mode=False, drain_tail=None):
+def random_run(scn, seed, granular=False, catch_all=False, advance=0, bytes_mode=False, drain_tail=None,
+               hs_mode=False):
     rng = random.Random('sched/%r' % (seed,))
 
     def fresh(opts):
@@ -1991,14 +2017,15 @@ def random_run(scn, seed, granular=False, catch_all=False, advance=0, bytes_mode
         return idx, nb
     ch = Chooser([], fresh, coin_rng=rng)
     r = Run(scn, ch, message_granular=granular, catch_all=catch_all, advance=advance > 0, bytes_mode=bytes_mode,
-            drain_tail=drain_tail)
+            drain_tail=drain_tail, hs_mode=hs_mode)
     r.execute()
     return r
 
 
-def replay_run(scn, choices, granular, advance=False, bytes_mode=False, drain_tail=None):
+def replay_run(scn, choices, granular, advance=False, bytes_mode=False, drain_tail=None, hs_mode=False):
     ch = Chooser(choices, lambda opts: (0, None))
-    r = Run(scn, ch, message_granular=granular, advance=advance, bytes_mode=bytes_mode, drain_tail=drain_tail)
+    r = Run(scn, ch, message_granular=granular, advance=advance, bytes_mode=bytes_mode, drain_tail=drain_tail,
+            hs_mode=hs_mode)
     r.execute()
     return r
 
@@ -2015,6 +2042,8 @@ def report(ctx, stream, runs):
         if r.bytes_mode:
             inp['bytes_mode'] = True
             inp['drain_tail'] = r.drain_tail
+            inp['hs_mode'] = r.hs_mode
+            ctx.stat('byte-level-start=' + ('before-the-end-of-the-handshake' if r.hs_mode else 'after-the-handshake'))
             ctx.stat('byte-level-run=' + ('drain-tail' if r.drain_tail else 'to-the-end'))
             ctx.stat('drained-by-canonical-schedule=%s' % getattr(r, 'drained', False))
         ctx.case(stream, sample={'scenario': r.scn, 'schedule': ''.join(r.steps)}, nontrivial=r.invoked > 0)
@@ -2063,7 +2092,8 @@ def run(ctx):
     for name, case in ctx.corpus():
         inp = case.get('input', case)
         runs.append(replay_run(inp['scenario'], inp.get('choices', []), inp.get('granular', True), inp.get('advance', False),
-                               bytes_mode=inp.get('bytes_mode', False), drain_tail=inp.get('drain_tail')))
+                               bytes_mode=inp.get('bytes_mode', False), drain_tail=inp.get('drain_tail'),
+                   hs_mode=inp.get('hs_mode', False)))
     if runs:
         report(ctx, 'net-corpus', runs)
     else:
@@ -2119,10 +2149,11 @@ def run(ctx):
     for k in range(ctx.scale(quick=70, thorough=700)):
         if k % 3 == 2:
             scn = gen_drain_scenario(rng)
-            batch.append(random_run(scn, (ctx.seed, 'drain', k, rng.random()), bytes_mode=True, drain_tail=0.25))
+            batch.append(random_run(scn, (ctx.seed, 'drain', k, rng.random()), bytes_mode=True, drain_tail=0.25,
+                                    hs_mode=(k % 2 == 0)))
         else:
             scn = bytes_scenario(rng)
-            batch.append(random_run(scn, (ctx.seed, 'bytes', k, rng.random()), bytes_mode=True))
+            batch.append(random_run(scn, (ctx.seed, 'bytes', k, rng.random()), bytes_mode=True, hs_mode=(k % 2 == 0)))
     report(ctx, 'bytes-net', batch)
     # ---- the same with a third party holding a catch-all match rule
     batch = []
@@ -2145,5 +2176,6 @@ def replay(ctx, data):
         ctx.note('replay file names no input (a theorem/build obligation): nothing to re-run')
         return
     r = replay_run(inp['scenario'], inp.get('choices', []), inp.get('granular', True), inp.get('advance', False),
-                   bytes_mode=inp.get('bytes_mode', False), drain_tail=inp.get('drain_tail'))
+                   bytes_mode=inp.get('bytes_mode', False), drain_tail=inp.get('drain_tail'),
+                   hs_mode=inp.get('hs_mode', False))
     report(ctx, 'net-corpus', [r])
